@@ -54,6 +54,17 @@ Set(idx) ==
 
 Compact == DoCompact(offset, nw, bits)
 
+\* The same transitions as functions on <<offset, nw, bits, reclaimed>> (used to compose macro-steps
+\* such as "fill a word" in behaviour generation; MC_TailBitmap checks they agree with the actions).
+CompactF(st) == LET c == Compacted(st[1], st[2], st[3])
+                IN <<c[1], c[2], c[3], IF c[1] - st[4] >= RT * W THEN c[1] ELSE st[4]>>
+SetF(st, idx) ==
+    IF idx < st[1] THEN st
+    ELSE LET wi == (idx - st[1]) \div W
+             n1 == IF wi >= st[2] THEN wi + 1 ELSE st[2]
+             s1 == <<st[1], n1, st[3] \cup {idx}, st[4]>>
+         IN IF wi = 0 THEN CompactF(s1) ELSE s1
+
 \* Structural invariants of the object itself.
 Aligned   == offset % W = 0
 InRange   == \A x \in bits : x >= offset /\ x < offset + W * nw
